@@ -312,6 +312,11 @@ def run_exc_case(case, build, allowed, forbidden, required, args, must_parse=Tru
 # ---------------------------------------------------------------------------------------------------
 # E3: the matching / splitting wrappers against direct use of re on the emitted text
 
+def pv(x, name):
+    """protected accessor, when the tree under test has it"""
+    return getattr(x, name)() if hasattr(x, name) else None
+
+
 def direct(p, src):
     """what re finds: [(text, start, end, group spans, {name: group number})] under MULTILINE | DOTALL"""
     rx = re.compile(str(p), FLAGS)
